@@ -83,3 +83,33 @@ pub fn partition_swapped(iter: &Function, p: &Function) -> Result<(Vec<Variable>
     }
     Ok((right, left))
 }
+
+/// `matches!` form with the test inverted: stops at the first element, goes on after the end marker
+pub fn collect_inverted(iter: &Function) -> Result<Vec<Variable>, ExecError> {
+    let mut elements = Vec::new();
+    loop {
+        let Variable::Tuple(tuple) = iter.exec_with_args(&[])? else {
+            break;
+        };
+        if !matches!(tuple[0], Variable::Bool(false)) {
+            break;
+        }
+        elements.push(tuple[1].clone());
+    }
+    Ok(elements)
+}
+
+/// correct `matches!` form
+pub fn collect_matches_ok(iter: &Function) -> Result<Vec<Variable>, ExecError> {
+    let mut elements = Vec::new();
+    loop {
+        let Variable::Tuple(tuple) = iter.exec_with_args(&[])? else {
+            break;
+        };
+        if matches!(tuple[0], Variable::Bool(false)) {
+            break;
+        }
+        elements.push(tuple[1].clone());
+    }
+    Ok(elements)
+}
